@@ -183,6 +183,32 @@ def gen_driver(ir, header_name, writable=False, max_bits_depth=3, max_elems=2, a
                                      "elem_read", fpath, k)
 
         emit_fields(tdef, "v", (), 0)
+        if writable:
+            # writes through physical integer scalars, aliases and invertible virtual fields
+            for f in tdef.structure.field:
+                fname = f.name.name.text
+                if fname.startswith("$") or fname.startswith("emboss_reserved_anonymous_field"):
+                    continue
+                kind = field_kind(f, ir)
+                wm = f.write_method.which_method
+                if kind.startswith("virtual:"):
+                    if kind != "virtual:integer" or wm not in ("alias", "transform"):
+                        continue
+                elif kind not in ("scalar:UInt", "scalar:Int", "scalar:Bcd"):
+                    continue
+                fid = ident(fname)
+                tname = "T_%s_%s" % (sid, fid)
+                mk0 = "%s(%s)" % (maker_name(tdef, ir), ", ".join(["0"] * len(pargs) + ["static_cast<unsigned char*>(nullptr)", "0"]))
+                if plist:
+                    mk0 = "%s(%s)" % (maker_name(tdef, ir), ", ".join(
+                        [a.replace("p_" + p.name.name.text, "0") for a, p in zip(pargs, tdef.runtime_parameter)] +
+                        ["static_cast<unsigned char*>(nullptr)", "0"]))
+                lines.append("using %s = decltype(%s.%s().Read());" % (tname, mk0, fname))
+                lines.append('extern "C" bool %s__wtry__%s(%s, %s x) { auto v = %s; return v.%s().TryToWrite(x); }' % (
+                    sid, fid, sig, tname, mk, fname))
+                entries.append(Entry("%s__wtry__%s" % (sid, fid), sname, "wtry", (fname,), "bool", kind))
+                lines.append('extern "C" bool %s__wsigned__%s() { return ::std::is_signed<%s>::value; }' % (sid, fid, tname))
+                entries.append(Entry("%s__wsigned__%s" % (sid, fid), sname, "wsigned", (fname,), "bool", kind))
     return "\n".join(lines) + "\n", entries
 
 
